@@ -109,6 +109,7 @@ def gen_table(tier, seed):
             lay["drop_single"] = r.random() < 0.4
             lay["value_name"] = r.choice([None, None, "amount", "val", "v"])
             lay["perm_rows"] = r.random() < 0.6
+            lay["keep_index"] = r.random() < 0.4        # a reordered frame keeps its original row labels
             lay["perm_cols"] = r.random() < 0.6
             lay["index"] = r.choice(["none", "none", "multi", "multi", "unnamed"]) if r.random() < 0.9 else "none"
             lay["index_col"] = r.randrange(4)
@@ -118,7 +119,7 @@ def gen_table(tier, seed):
             faults = []
             if r.random() < 0.45:
                 for _ in range(r.choice([1, 1, 1, 2])):
-                    k = r.choice(["drop_row", "dup_row", "relabel", "blank", "drop_col", "extra_valcol"])
+                    k = r.choice(["drop_row", "dup_row", "relabel", "blank", "drop_col", "extra_valcol", "dup_and_drop"])
                     faults.append({"kind": k, "pos": r.randrange(1000), "col": r.randrange(4),
                                    "change_value": r.random() < 0.5})
                     stats["fault_kinds"][k] = stats["fault_kinds"].get(k, 0) + 1
